@@ -10,7 +10,7 @@
                                 kinds and flags without the generated routing tables          *)
 From Coq Require Import List NArith ZArith Bool.
 From Verif Require Import Bytes ShowTree Facts_show ShowTypesM ShowJsonM ShowLeavesM Json ShowSpecM
-  ShowTree_proofs Show_flat_proofs Show_js_checks Show_js_proofs Show_c09_proofs Json_proofs ShowLeaves_proofs ShowJson_proofs.
+  ShowTree_proofs Show_flat_proofs Show_js_checks Show_js_proofs Show_c09_proofs Json_proofs ShowLeaves_proofs ShowJson_proofs ShowData_proofs.
 Import ListNotations.
 Open Scope N_scope.
 
@@ -24,20 +24,34 @@ Definition accepted (f : showfn) (t : ty) (v : value) : Prop :=
 (* Full statement. *)
 Definition C08_statement : Prop :=
   forall (O : leaves), oracle_ok O ->
-  (* JSON: the text is valid JSON and it is the data of the value *)
+  (* JSON: the text is valid JSON (it parses as exactly one value) and it is the data of the value *)
   (forall conv t v, accepted FJSON t v ->
      exists out j, show_any (concrete O) conv ctx_JSON false t v = ROk out /\
                    json_parse out = Some j /\ json_of_top O FJSON t v = Some j)
   /\
-  (* JavaScript: the text is one literal expression for the data of the value
-     (or showTimeInJS panics on a year that Date cannot represent) *)
+  (* JavaScript: the text is one literal expression, unless showTimeInJS panics on a year that
+     Date cannot represent ... *)
   (forall conv t v, accepted FJS t v ->
      show_any (concrete O) conv ctx_JS false t v = RPanic \/
      exists out j, show_any (concrete O) conv ctx_JS false t v = ROk out /\
+                   wf_json true j = true /\ out = json_print j /\ js_parse out = Some j)
+  /\
+  (* ... and when it does not panic the literal is the data of the value *)
+  ((forall x, lf_time_js O x <> None) ->
+   forall conv t v, accepted FJS t v ->
+     exists out j, show_any (concrete O) conv ctx_JS false t v = ROk out /\
                    js_parse out = Some j /\ json_of_top O FJS t v = Some j).
 
-(* Proved part: well formedness. The text is written, it is the print of a well formed
-   value and the parser reads exactly that value back. *)
+Theorem C08_holds : C08_statement.
+Proof.
+  intros O HO. split; [| split].
+  - intros conv t v [H1 [H2 [H3 [H4 [H5 [H6 H7]]]]]]. exact (show_json_data O conv t v HO H1 H2 H3 H4 H5 H6 H7).
+  - intros conv t v [H1 [H2 [H3 [H4 [H5 [H6 H7]]]]]]. exact (show_js_wf O conv t v HO H1 H2 H3 H4 H5 H6 H7).
+  - intros HT conv t v [H1 [H2 [H3 [H4 [H5 [H6 H7]]]]]]. exact (show_js_data O conv t v HO HT H1 H2 H3 H4 H5 H6 H7).
+Qed.
+Print Assumptions C08_holds.
+
+(* well formedness, with the printed tree made explicit *)
 Definition C08_wf_statement : Prop :=
   forall (O : leaves), oracle_ok O ->
   (forall conv t v, accepted FJSON t v ->
@@ -49,13 +63,13 @@ Definition C08_wf_statement : Prop :=
      exists out j, show_any (concrete O) conv ctx_JS false t v = ROk out /\
                    wf_json true j = true /\ out = json_print j /\ js_parse out = Some j).
 
-Theorem C08_wf_partial : C08_wf_statement.
+Theorem C08_wf : C08_wf_statement.
 Proof.
   intros O HO. split; intros conv t v [H1 [H2 [H3 [H4 [H5 [H6 H7]]]]]].
   - exact (show_json_wf O conv t v HO H1 H2 H3 H4 H5 H6 H7).
   - exact (show_js_wf O conv t v HO H1 H2 H3 H4 H5 H6 H7).
 Qed.
-Print Assumptions C08_wf_partial.
+Print Assumptions C08_wf.
 
 (* the parser reads back every well formed value from its text (both grammars) *)
 Theorem C08_parse_print : forall js j, wf_json js j = true -> parse_text js (json_print j) = Some j.
